@@ -92,9 +92,10 @@ Models ==
                   shp13 |-> T("i64", <<2>>, <<1, 3>>)]],
     \* an input with an initializer as its default: a call that supplies it must not change what a later call without it reads
     defaulted_input |->
-      [nodes |-> <<Nd("Add", <<>>, <<"x", "v">>, <<"a">>), Nd("Sub", <<>>, <<"v", "a">>, <<"m">>)>>,
-       inputs |-> <<InD("x", <<DSym, DFix(3)>>), InD("v", <<DFix(1), DFix(3)>>)>>, outputs |-> <<"a", "m">>,
-       inits |-> [v |-> T("f32", <<1, 3>>, <<10, 20, 30>>)]],
+      \* (the node producing vw reads initializers only, one of which the caller may override)
+      [nodes |-> <<Nd("Add", <<>>, <<"x", "v">>, <<"a">>), Nd("Sub", <<>>, <<"v", "a">>, <<"m">>), Nd("Mul", <<>>, <<"v", "w2">>, <<"vw">>)>>,
+       inputs |-> <<InD("x", <<DSym, DFix(3)>>), InD("v", <<DFix(1), DFix(3)>>)>>, outputs |-> <<"a", "m", "vw">>,
+       inits |-> [v |-> T("f32", <<1, 3>>, <<10, 20, 30>>), w2 |-> T("f32", <<3>>, <<2, -1, 3>>)]],
     \* comparisons and logic: the first operand already has the output shape, the second one is stretched; the intermediate
     \* `lt` and the weight `mfull` are read again by later nodes
     logic_ops |->
